@@ -1440,6 +1440,16 @@ class Folder:
         elif isinstance(t, ast.Attribute) and isinstance(t.value, ast.Name) and t.value.id in env \
                 and isinstance(env[t.value.id], DV) and id(env[t.value.id]) in self._fresh:
             env[t.value.id].fields[t.attr] = v
+        elif isinstance(t, ast.Attribute) and self.allow_loops and not (isinstance(t.value, ast.Name) and t.value.id not in env):
+            # x.y.attr = v : the owner is evaluated; it must be an assignable object of the subject (built by a constructor / mutable dataclass)
+            owner = self._eval(t.value, env, self._cur_mod, None)
+            if isinstance(owner, DV) and id(owner) in self._fresh:
+                owner.fields[t.attr] = v
+            elif isinstance(owner, DV):
+                raise FoldRaise('AttributeError', f"cannot assign to field '{t.attr}' of a frozen value") if any('frozen=True' in d for d in owner.cls.decorators) \
+                    else Unsupported('assignment to an attribute of an object the folder did not build')
+            else:
+                raise Unsupported('attribute assignment on ' + type(owner).__name__)
         elif isinstance(t, ast.Subscript) and isinstance(t.value, ast.Name) and t.value.id in env \
                 and (isinstance(env[t.value.id], (dict, list)) or self._native_store(env[t.value.id])) and self.allow_loops:
             self._store_item(env[t.value.id], self._index(t.slice, env), v)
